@@ -15,6 +15,8 @@ from __future__ import annotations
 
 import math
 import random
+import re
+from decimal import Decimal
 from fractions import Fraction
 from typing import Any
 
@@ -219,3 +221,189 @@ def case_arith1(R: Runner, inp: dict[str, Any]) -> None:
     rr = R.T("round", "round: d | round: d", cls=q, x=x, d=digits)
     if r.ok and rr.ok and isinstance(r.value, (int, float)):
         R.law("round", "idempotent", rr.value == r.value, q, {"once": r.value, "twice": rr.value})
+
+
+# ---------------------------------------------------------------------------
+# numeric strings in every spelling the engine accepts: a string denotes a number
+# ---------------------------------------------------------------------------
+#
+# filter_reference.md: abs "Works on integers, floats and string representations of
+# integers or floats"; at_least / at_most "string representations of an integer or float
+# ... will be cast to an integer or float prior to comparison"; plus / minus / times /
+# divided_by / modulo "Liquid will try to convert them to a number"; examples "16" | minus,
+# "20" | divided_by: "7" -> 2 (integer division for integer strings), "24" | modulo: "7".
+# The documentation does not enumerate spellings; calibrated on the working tree, the
+# accepted ones are: optional sign (+ or -), ASCII white space around the number (the
+# usual `capture` output), leading zeros, digit-group underscores, any magnitude; for
+# floats additionally ".5", "5." and exponent forms.  Law: a numeric string behaves
+# exactly like the number it denotes - f(s, m) == f(n, m) and f(m, s) == f(m, n),
+# strictly (an integer string gives integer arithmetic, integer division, the integer
+# sign rule of modulo; nothing is lost beyond 2**53).
+
+RE_SPELLED_INT = re.compile(r"[ \t\r\n]*([+-]?)(\d+(?:_\d+)*)[ \t\r\n]*\Z")
+RE_SPELLED_FLOAT = re.compile(
+    r"[ \t\r\n]*([+-]?)((?:\d+(?:_\d+)*\.?(?:\d+(?:_\d+)*)?|\.\d+(?:_\d+)*)(?:[eE][+-]?\d+)?)[ \t\r\n]*\Z")
+
+
+def denoted(s: Any) -> int | float | None:
+    """The number a spelling denotes (None: not one of the calibrated spellings)."""
+    if not isinstance(s, str) or len(s) > 600:
+        return None
+    m = RE_SPELLED_INT.match(s)
+    if m:
+        v = int(m.group(2).replace("_", ""))
+        return -v if m.group(1) == "-" else v
+    m = RE_SPELLED_FLOAT.match(s)
+    if m:
+        v = float(m.group(2).replace("_", ""))
+        if math.isinf(v):
+            return None
+        return -v if m.group(1) == "-" else v
+    return None
+
+
+def spelling_class(s: str) -> str:
+    core = s.strip(" \t\r\n")
+    if "_" in core:
+        return "underscored"
+    if "e" in core or "E" in core:
+        return "exponent-form"
+    if core.startswith((".", "+.", "-.")) or core.endswith("."):
+        return "bare-decimal-point"
+    if core.startswith("+"):
+        return "plus-sign"
+    if core != s:
+        return "surrounded-by-whitespace"
+    if re.match(r"-?0\d", core):
+        return "leading-zeros"
+    return "plain"
+
+
+PADS = ["", "", " ", "  ", "\n", "\t", "\r\n", "\n  ", " \n"]
+
+
+def spell(rng: random.Random, n: int | float) -> str:
+    neg = n < 0 or (isinstance(n, float) and math.copysign(1.0, n) < 0)
+    a = -n if neg else n
+    if isinstance(a, int):
+        digits = str(a)
+        c = rng.random()
+        if c < 0.12:
+            digits = "0" * rng.randint(1, 3) + digits
+        elif c < 0.2 and len(digits) > 1:
+            i = rng.randrange(1, len(digits))
+            digits = digits[:i] + "_" + digits[i:]
+    else:
+        c = rng.random()
+        plain = format(Decimal(repr(a)), "f")
+        if c < 0.45:
+            digits = plain
+        elif c < 0.55 and plain.startswith("0."):
+            digits = plain[1:]  # .5
+        elif c < 0.65 and plain.endswith(".0"):
+            digits = plain[:-1]  # 5.
+        elif c < 0.85:
+            digits = f"{Decimal(repr(a)):{rng.choice('eE')}}"
+        else:
+            digits = repr(a)
+    sign = "-" if neg else ("+" if rng.random() < 0.3 else "")
+    c = rng.random()
+    if c < 0.5:
+        return sign + digits
+    return rng.choice(PADS) + sign + digits + rng.choice(PADS)
+
+
+def gen_numstr(rng: random.Random, i: int) -> dict[str, Any]:
+    c = rng.random()
+    if c < 0.65:
+        n: Any = g_int(rng, big=0.35)
+        if rng.random() < 0.3:
+            n = rng.choice((7, -7, 0, 20, 3, 2**53 + 1, -(2**53) - 1, 2**64 + 1, 12345678901234567890))
+    else:
+        n = g_float(rng, wide=rng.random() < 0.3)
+    c = rng.random()
+    if c < 0.45:
+        m: Any = rng.choice((1, 2, 3, -3, -2, 7, -7, 10, 4))
+    elif c < 0.7:
+        m = g_int(rng, big=0.5)
+    elif c < 0.9:
+        m = g_float(rng)
+    else:
+        m = 0
+    return {"mode": "numstr", "s": spell(rng, n), "m": m, "s2": spell(rng, m)}
+
+
+def _agree(R: Runner, f: str, law: str, a: Any, b: Any, q: str, what: Any) -> None:
+    """Two applications must have the same outcome, strictly (1 is not 1.0)."""
+    if a.kind == "foreign" or b.kind == "foreign":
+        return
+    from .c19_lib import skey
+
+    ok = a.kind == b.kind and (not a.ok or skey(a.value) == skey(b.value))
+    R.law(f, law, ok, q, None if ok else {"call": what, "with_string": a.brief(), "with_number": b.brief()})
+    if R.recording:
+        R.ctx.count("string_vs_number_comparisons")
+
+
+def _float_pair_ok(f: str, x: Any, y: Any) -> bool:
+    """Domain guard shared with the exact-arithmetic unit (see case_arith2)."""
+    if not (isinstance(x, float) or isinstance(y, float)):
+        return True
+    ex, ey = exact(x), exact(y)
+    if abs(ex) >= BIG or abs(ey) >= BIG:
+        return False
+    if f == "times" and abs(ex * ey) >= BIG:
+        return False
+    if f == "divided_by" and ey != 0 and abs(ex / ey) >= BIG:
+        return False
+    if f == "modulo":
+        return ey == 0 or (ex >= 0 and ey > 0 and abs(ex / ey) < Fraction(10) ** 15)
+    return True
+
+
+BINARY = ("plus", "minus", "times", "divided_by", "modulo", "at_least", "at_most")
+
+
+@unit("numstr", (), gen_numstr)
+def case_numstr(R: Runner, inp: dict[str, Any]) -> None:
+    s, m, s2 = inp["s"], inp["m"], inp["s2"]
+    n = denoted(s)
+    if n is None or isinstance(m, bool) or not isinstance(m, (int, float)):
+        return
+    if isinstance(m, float) and not math.isfinite(m):
+        return
+    q = spelling_class(s) + (":bigint" if isinstance(n, int) and abs(n) > 2**53 else "")
+    for f in BINARY:
+        if _float_pair_ok(f, n, m):
+            ref = R.both(f, n, m, cls="numbers")
+            _agree(R, f, "numeric-string-input-denotes-its-number", R.both(f, s, m, cls=q), ref, q, [f, s, m])
+            if not isinstance(n, float) and not isinstance(m, float) and m != 0 and ref.ok:
+                # and the number itself obeys exact integer arithmetic
+                want = {"plus": n + m, "minus": n - m, "times": n * m, "divided_by": n // m, "modulo": n % m,
+                        "at_least": max(n, m), "at_most": min(n, m)}[f]
+                R.law(f, "exact-integer-arithmetic", type(ref.value) is int and ref.value == want, "",
+                      {"call": [f, n, m], "want": want, "got": ref.value})
+        if _float_pair_ok(f, m, n):
+            ref = R.both(f, m, n, cls="numbers")
+            _agree(R, f, "numeric-string-argument-denotes-its-number", R.both(f, m, s, cls=q), ref, q, [f, m, s])
+    # both operands spelled as strings
+    m2 = denoted(s2)
+    if m2 is not None:
+        q2 = q if spelling_class(s) != "plain" else spelling_class(s2)
+        for f in BINARY:
+            if _float_pair_ok(f, n, m2):
+                _agree(R, f, "numeric-strings-denote-their-numbers", R.T(f, f"{f}: b", cls=q2, x=s, b=s2),
+                       R.T(f, f"{f}: b", cls="numbers", x=n, b=m2), q2, [f, s, s2])
+    if isinstance(n, float) and abs(n) >= 2**52:
+        return
+    for f in ("abs", "ceil", "floor", "round"):
+        _agree(R, f, "numeric-string-input-denotes-its-number", R.both(f, s, cls=q), R.both(f, n, cls="numbers"),
+               q, [f, s])
+    _agree(R, "round", "numeric-string-argument-denotes-its-number",
+           R.T("round", "round: d", cls=q, x=1.23456789, d=s if isinstance(n, int) and 0 <= n <= 8 else "2"),
+           R.T("round", "round: d", cls="numbers", x=1.23456789, d=n if isinstance(n, int) and 0 <= n <= 8 else 2),
+           q, ["round", 1.23456789, s])
+    # sum reads numeric strings too (docs example: "1,2,3" | split | sum)
+    if not (isinstance(n, float) or isinstance(m, float)) or (abs(exact(n)) < 10**20 and abs(exact(m)) < 10**20):
+        _agree(R, "sum", "numeric-string-element-denotes-its-number", R.both("sum", [s, m], cls=q),
+               R.both("sum", [n, m], cls="numbers"), q, ["sum", [s, m]])
